@@ -1,5 +1,6 @@
 import ZenonVerif.Lemmas.Pool
 import ZenonVerif.Lemmas.PoolFilter
+import ZenonVerif.Lemmas.PoolChain
 /-
 C14 — unconfirmed pool: property theorems only.
 -/
@@ -284,5 +285,149 @@ theorem filter_maximal (ts p : List Nat) (hp : p <+: ts)
   simpa [isContractSend] using this
 
 example : filterBlocksToCommit [2, 4, 4, 5, 4] = [2, 4, 4, 5] := by decide
+
+/-! ### T1 / T2 — the per-address pool (one-block transactions)
+
+`Reachable c0 s`: `s` is reached from the confirmed account chain `c0` and an empty pool by any sequence of
+add / force-add (any block of height ≥ 1), momentum insert (any blocks that extend the confirmed chain) and momentum
+delete (cut the confirmed chain anywhere). -/
+
+/-- T1 `pool_single_chain`: in every reachable state the manager of the address is built on the current confirmed
+    chain and its pooled blocks form one chain on top of it: the first block's Previous() is the stable identifier,
+    every other block's Previous() is the identifier of its predecessor (`Linked`), and the heights are
+    stable+1, stable+2, … without gap. -/
+theorem pool_single_chain (c0 : List Blk) (s : PState) (hr : Reachable c0 s) :
+    s.manager.base = s.confirmed ∧ Linked (lastId s.confirmed) s.manager.pooled ∧
+    ∀ (i : Nat) (h : i < s.manager.pooled.length),
+      s.manager.pooled[i].height = (lastId s.confirmed).2 + 1 + i := by
+  obtain ⟨h1, h2, h3⟩ := manager_ok (reachable_inv hr)
+  exact ⟨h1, h2, linked_heights _ _ h2 h3⟩
+
+/-- the whole frontier view (confirmed chain followed by the pooled blocks) is one chain from the zero identifier -/
+theorem pool_view_is_chain (c0 : List Blk) (s : PState) (hr : Reachable c0 s) :
+    Linked zeroId (s.manager.base ++ s.manager.pooled) := by
+  have hi := reachable_inv hr
+  obtain ⟨h1, h2, _⟩ := manager_ok hi
+  rw [h1, linked_append]
+  exact ⟨hi.1, by rw [← lastId_eq]; exact h2⟩
+
+/-- T2 `confirmed_never_displaced`: no pool operation touches the confirmed chain, and an attempt to add (or force-add)
+    a block at or below the confirmed height is answered "already inserted" — exactly when it IS the confirmed block
+    of that height — or refused as older than the stable identifier; the pool keeps its blocks. The frontier store
+    answers every height up to the confirmed one with the confirmed block. -/
+theorem confirmed_never_displaced (c0 : List Blk) (s : PState) (hr : Reachable c0 s) (b : Blk) (f : Bool)
+    (hb : b.height ≠ 0) (hle : b.height ≤ (lastId s.confirmed).2) :
+    ((addBlock s b f).2 = .already ∨ (addBlock s b f).2 = .olderThanStable) ∧
+    (addBlock s b f).1 = { s with mgr := some s.manager } ∧
+    ((addBlock s b f).2 = .already ↔ (byHeight s.confirmed b.height).map Blk.id = some b.id) ∧
+    ∀ h, h ≤ (lastId s.confirmed).2 →
+      byHeight (s.manager.base ++ s.manager.pooled) h = byHeight s.confirmed h := by
+  have hi := reachable_inv hr
+  obtain ⟨h1, h2, h3⟩ := manager_ok hi
+  -- pooled blocks lie strictly above the confirmed height
+  have habove := linked_mem_height _ _ h2 h3
+  have hview : ∀ h, h ≤ (lastId s.confirmed).2 →
+      byHeight (s.manager.base ++ s.manager.pooled) h = byHeight s.confirmed h := by
+    intro h hh
+    rw [byHeight_append, byHeight_none _ _ (fun x hx => by have := (habove x hx).1; omega), h1]
+    simp
+  -- the block cannot be a fast-forward: the frontier is at or above the confirmed height
+  have hfront : (s.manager.frontierId).2 = (lastId s.confirmed).2 + s.manager.pooled.length := by
+    rw [frontierId_eq, h1]; exact linked_last_height _ _ h2 h3
+  have hne : b.prev ≠ s.manager.frontierId := by
+    intro he
+    have : b.prev.2 = (s.manager.frontierId).2 := by rw [he]
+    simp only [Blk.prev, hb, if_false] at this
+    omega
+  have hcr : canRollback s s.manager b = some .olderThanStable := by
+    unfold canRollback; simp [hle]
+  refine ⟨?_, ?_, ?_, hview⟩
+  all_goals
+    unfold addBlock
+    simp only [hne, if_false, hview b.height hle, hcr]
+    split <;> simp_all
+
+/-- the call `higherPriority(block, trueBlock)` in addAccountBlockTransaction is made before `trueBlock` is known to be
+    non-nil; in every reachable state it never is nil there (no nil dereference), forced or not -/
+theorem add_never_nil_deref (c0 : List Blk) (s : PState) (hr : Reachable c0 s) (b : Blk) (f : Bool)
+    (hb : b.height ≠ 0) : (addBlock s b f).2 ≠ .nilDeref := by
+  have hi := reachable_inv hr
+  obtain ⟨h1, h2, h3⟩ := manager_ok hi
+  have hchain : Linked zeroId (s.manager.base ++ s.manager.pooled) := pool_view_is_chain c0 s hr
+  have hho : HeightsOK (s.manager.base ++ s.manager.pooled) := heightsOK_append.mpr ⟨by rw [h1]; exact hi.2.1, h3⟩
+  generalize hv : s.manager.base ++ s.manager.pooled = view at hchain hho
+  have hlen := chain_last_height view hchain hho
+  have hfid : s.manager.frontierId = lastId view := by rw [← hv]; rfl
+  unfold addBlock
+  simp only [hv]
+  split
+  · split <;> simp
+  · rename_i hne
+    split
+    · simp
+    · split
+      · rename_i e he
+        -- canRollback returned an error: it is never nilDeref
+        unfold canRollback at he
+        rw [hv] at he
+        split at he
+        · cases he; simp
+        · split at he
+          · cases he; simp
+          · split at he
+            · cases he; simp
+            · cases he
+      · rename_i hcr
+        split
+        · -- trueBlock = none although canRollback passed: impossible
+          rename_i htb
+          exfalso
+          unfold canRollback at hcr
+          rw [hv] at hcr
+          split at hcr
+          · cases hcr
+          · split at hcr
+            · cases hcr
+            · rename_i tp htp
+              split at hcr
+              · cases hcr
+              · rename_i hid
+                have hid : tp.id = b.prev := by simpa using hid
+                obtain ⟨htm, hth⟩ := byHeight_some htp
+                -- no block at b.height: b.height is above the view
+                have habove : view.length < b.height := by
+                  apply Classical.byContradiction
+                  intro hle
+                  have := byHeight_isSome view hchain hho b.height (by omega) (by omega)
+                  rw [htb] at this; cases this
+                obtain ⟨i, hi', rfl⟩ := List.getElem_of_mem htm
+                have hhi := linked_heights view zeroId hchain hho i hi'
+                simp only [zeroId, Blk.prev, hb, if_false] at hhi hth
+                have htop : view[i].height = view.length := by omega
+                have := top_block_id view hchain hho view[i] htm htop
+                exact hne (by rw [hfid, ← this, hid])
+        · repeat' split
+          all_goals simp
+
+/-- negative witness for candidate F12 (`rebuild` returns at the first address whose blocks do not re-apply, later
+    addresses keep the manager built on the OLD stable database): if the rebuild of this address is skipped while a
+    momentum confirms a competing block, the pooled block no longer extends the confirmed chain and the frontier store
+    shows the pooled block instead of the confirmed one — T1 and T2 hold only when every address is rebuilt. -/
+theorem skipped_rebuild_breaks_single_chain :
+    ∃ (s : PState) (nb : List Blk), Reachable [] s ∧ OpOK s (.insert nb) ∧
+      let s' := (insertMomentum s nb true).1
+      ¬ Linked (lastId s'.confirmed) s'.manager.pooled ∧
+      byHeight (s'.manager.base ++ s'.manager.pooled) 1 ≠ byHeight s'.confirmed 1 := by
+  refine ⟨step ⟨[], none⟩ (.add { height := 1, hash := [1], prevHash := zeroHash } false),
+    [{ height := 1, hash := [2], prevHash := zeroHash }], ?_, ?_, ?_⟩
+  · exact Reachable.step _ (Reachable.init trivial (fun _ h => by simp at h)) (by simp [OpOK])
+  · decide
+  · decide
+
+example : ∃ s, Reachable [] s ∧ s.manager.pooled.length = 2 :=
+  ⟨step (step ⟨[], none⟩ (.add { height := 1, hash := [1], prevHash := zeroHash } false))
+      (.add { height := 2, hash := [2], prevHash := [1] } false),
+   Reachable.step _ (Reachable.step _ (Reachable.init trivial (fun _ h => by simp at h)) (by simp [OpOK]))
+     (by simp [OpOK]), by decide⟩
 
 end ZV.C14
